@@ -139,6 +139,11 @@ func sameAddr(a, b ssa.Value) bool {
 	if ok1 && ok2 && fa.Field == fb.Field {
 		return sameAddr(fa.X, fb.X) || sameValue(fa.X, fb.X)
 	}
+	ia, ok3 := a.(*ssa.IndexAddr)
+	ib, ok4 := b.(*ssa.IndexAddr)
+	if ok3 && ok4 && (ia.Index == ib.Index || sameValue(ia.Index, ib.Index)) {
+		return sameAddr(ia.X, ib.X) || sameValue(ia.X, ib.X)
+	}
 	return false
 }
 
